@@ -1,11 +1,33 @@
-/-! line-protocol handlers for corr:repro (C01): the oracle (byte equality of all outputs across
-variants) is evaluated by the harness; the model has nothing to add per case — its content is the
-order-independence theorems of Proofs/C01.lean. -/
+import Apko.Model.IndexOrder
+/-! line-protocol handlers for corr:repro (C01).
+
+  x.repro    case-hash                → the oracle (byte equality of all outputs across variants, no scratch path in
+                                        any output) is evaluated by the harness; the model has nothing to add per case
+                                        — its content is the order-independence theorems of Proofs/C01.lean
+  x.collect  n  present  schedule     → impl \t spec \t class: the positions of the indexes `GetRepositoryIndexes`
+                                        returns for `n` repository lines, `present` = one `0`/`1` per line (`0`: a
+                                        local repository without an index), `schedule` = the completion order the
+                                        harness imposed (comma separated positions); impl = `collectPositional`
+                                        under that schedule, spec = `inLineOrder`
+-/
 namespace Apko.Driver.Repro
+open Apko.IndexOrder
+
+def parseNats (s : String) : List Nat :=
+  if s.isEmpty || s = "-" then [] else (s.splitOn ",").map String.toNat!
+
+def showNats (l : List Nat) : String :=
+  if l.isEmpty then "-" else ",".intercalate (l.map toString)
 
 def handle (args : List String) : Option String :=
   match args with
   | ["x.repro", _] => some "-\t-\t-"
+  | ["x.collect", n, bits, sched] =>
+    let present := bits.toList
+    let fetch : Nat → Option Nat := fun i => if present[i]? = some '1' then some i else none
+    let impl := collectPositional n.toNat! fetch (parseNats sched)
+    let spec := inLineOrder n.toNat! fetch
+    some (showNats impl ++ "\t" ++ showNats spec ++ "\t" ++ (if impl = spec then "-" else "unlisted"))
   | _ => none
 
 end Apko.Driver.Repro
